@@ -249,6 +249,7 @@ def layers(tier):
         for c in chunks(ts, 16 if quick else 8):
             jobs.append({'meas': meas, 'N': N, 'ts': c, 'pres': pres})
     jobs.append({'meas': 'EDIT_DISTANCE', 'N': 32, 'ts': [0, 1, 2, 3, 4, 5], 'pres': pres, 'n_jobs': 1})
+    jobs.append({'meas': 'EDIT_DISTANCE', 'N': 32, 'ts': [0.0, 1.0, 1.5, 2.5, 4.9], 'pres': pres, 'n_jobs': 2})   # float-typed
     # left tables whose sizes do not overlap the admissible window of many right rows (index min/max clamps)
     for lsizes in ([1, 2, 3], [20, 21], [7]):
         for meas in PRUNED_MEASURES:
@@ -265,7 +266,7 @@ def layers(tier):
         ts = sorted(set(th_att(meas, 6)) | set(th_grid(20)))
         for c in chunks(ts, 4):
             jobs.append({'meas': meas, 'N': Np, 'ts': c})
-    jobs.append({'meas': 'EDIT_DISTANCE', 'N': 12, 'ts': [0, 1, 2, 3, 4, 5]})
+    jobs.append({'meas': 'EDIT_DISTANCE', 'N': 12, 'ts': [0, 1, 2, 3, 4, 5, 1.0, 1.5, 2.5]})
     Ls.append(Layer('size-pairs', 'checks.c14:w_size_pairs', jobs,
                     'SizeFilter.filter_pair for all (m,n) <= %d: same answer for every overlap (all o for m,n <= 10, '
                     'else o in {0,min}) and tight' % Np, min_nontrivial=1000, chunksize=1))
@@ -278,7 +279,7 @@ def layers(tier):
     Kt = 6 if quick else 7
     jobs = []
     for meas in PRUNED_MEASURES + ('OVERLAP',):
-        ths = list(range(1, Kt + 1)) if meas == 'OVERLAP' else th_att(meas, Kt, grid=10)
+        ths = list(range(1, Kt + 1)) + [1.5, 2.0] if meas == 'OVERLAP' else th_att(meas, Kt, grid=10)
         for t in ths:
             for nj in (1,):
                 jobs.append({'gen': {'gen': 'univ', 'K': Kt}, 'meas': meas, 't': t, 'pres': pres, 'n_jobs': nj})
@@ -296,7 +297,7 @@ def layers(tier):
                 jobs.append({'gen': {'gen': 'tiny', 'k': k, 'r': r, 'lo': lo, 'hi': min(lo + 500, nsc)},
                              'meas': meas, 't': t, 'pres': pres, 'nosize': True})
     for q, padding in ((2, True), (3, False), (1, False), (2, False)):
-        for t in (0, 1, 2, 3):
+        for t in (0, 1, 2, 3, 1.5, 2.0):
             jobs.append({'gen': {'gen': 'struniv', 'alpha': 'ab', 'maxlen': 5 if quick else 6}, 'meas': 'EDIT_DISTANCE',
                          't': t, 'tok': ['qg', q, padding, False], 'pres': pres})
     Ls.append(Layer('refinement', 'checks.c14:w_refine', jobs,
